@@ -994,6 +994,10 @@ func (vfs *OrefaFS) ToSysStat(info fs.FileInfo) avfs.SysStater {
 func (vfs *OrefaFS) Truncate(name string, size int64) error {
 	op := "truncate"
 
+	if size < 0 {
+		return &fs.PathError{Op: op, Path: name, Err: vfs.err.InvalidArgument}
+	}
+
 	absPath, _ := vfs.Abs(name)
 
 	vfs.mu.RLock()
@@ -1014,10 +1018,6 @@ func (vfs *OrefaFS) Truncate(name string, size int64) error {
 		}
 
 		return &fs.PathError{Op: op, Path: name, Err: vfs.err.IsADirectory}
-	}
-
-	if size < 0 {
-		return &fs.PathError{Op: op, Path: name, Err: vfs.err.InvalidArgument}
 	}
 
 	child.mu.Lock()
